@@ -218,3 +218,67 @@ def surrogate_history(ops, logx=False, broadcast=True):
     finally:
         shutil.rmtree(tmp, ignore_errors=True)
     return ev
+
+
+def persist_strength(cfg):
+    """StrengthModel.save / load after a coupled run: stored histories are reproduced exactly"""
+    from kawin.precipitation.coupling.Strength import StrengthModel
+    from . import c18_drv
+    ev = [{"e": "init", "allowed": []}]
+    tmp = tempfile.mkdtemp(prefix="c20st_")
+    info = {"steps": 0}
+    try:
+        m, th, obs = K.build(cfg)
+        sm = c18_drv.strength_model(exp1=False)
+        sm.setCoherencyParameters(0.01)
+        sm.setSolidSolutionStrength({"B": 1e8}, 1)
+        m.addCouplingModel(sm)
+        from kawin.solver.Solver import SolverType
+        for (span, maxfrac) in cfg["calls"]:
+            try:
+                m.solve(span, solverType=SolverType.EXPLICITEULER, maxDtFrac=maxfrac)
+            except K.StepCap:
+                break
+        info["steps"] = len(sm.rss)
+        for compressed in (True, False):
+            path = os.path.join(tmp, "strength_%s.npz" % compressed)
+            sm.save(path, compressed=compressed)
+            sm2 = StrengthModel()
+            sm2.load(path)
+            for name, a, b in (("rss", sm.rss, sm2.rss), ("ls", sm.ls, sm2.ls), ("solidStrength", sm.solidStrength, sm2.solidStrength)):
+                ev.append({"e": "cmp", "name": "%s(compressed=%s)" % (name, compressed), "c": arr_cmp(a, b, 0.0)})
+    except Exception as ex:  # noqa
+        ev.append({"e": "exception", "msg": "%s: %s" % (type(ex).__name__, str(ex)[:200])})
+    finally:
+        shutil.rmtree(tmp, ignore_errors=True)
+    return ev, info
+
+
+def reset_pair(cfg):
+    """a model that was solved, reset and solved again reproduces a freshly built model's run (what TTPCalculator relies on)"""
+    from kawin.solver.Solver import SolverType
+    ev = [{"e": "init", "allowed": []}]
+    info = {"steps": 0}
+    try:
+        it = SolverType.RK4 if cfg.get("iter", "euler") == "rk4" else SolverType.EXPLICITEULER
+
+        def go(m):
+            for (span, maxfrac) in cfg["calls"]:
+                try:
+                    m.solve(span, solverType=it, maxDtFrac=maxfrac)
+                except K.StepCap:
+                    break
+        m1, th1, o1 = K.build(dict(cfg, cap=10 ** 9))
+        go(m1)
+        ref = {a: np.array(getattr(m1.pData, a)).copy() for a in K.ATTRS}
+        psd_ref = [np.array(p.PSD).copy() for p in m1.PBM]
+        m1.reset()
+        go(m1)
+        info["steps"] = int(m1.pData.n)
+        for a in K.ATTRS:
+            ev.append({"e": "cmp", "name": a, "c": arr_cmp(ref[a], getattr(m1.pData, a), 0.0)})
+        for p in range(len(m1.phases)):
+            ev.append({"e": "cmp", "name": "PSD[%d]" % p, "c": arr_cmp(psd_ref[p], m1.PBM[p].PSD, 0.0)})
+    except Exception as ex:  # noqa
+        ev.append({"e": "exception", "msg": "%s: %s" % (type(ex).__name__, str(ex)[:200])})
+    return ev, info
